@@ -127,3 +127,30 @@ package resolver
 //@            (exists q int :: 0 <= q && q < len(dependsOn) && dependsOn[q] == tkns[t].DependsOn[m])
 //@     invariant [sound] forall q int :: 0 <= q && q < len(dependsOn) ==>
 //@            (exists t int, m int :: 0 <= t && t < $i && 0 <= m && m < len(tkns[t].DependsOn) && dependsOn[q] == tkns[t].DependsOn[m])
+
+// ---- constructors: every collaborator and constant ends up in its own field (a swapped or dropped argument
+// would silently change which strategy / tokenizer / alias table the resolvers consult).
+//@ func NewArgResolver
+//@   property C02 C03
+//@   ensures [keeps_the_strategies_in_order] result != nil && result.strategies == s
+//@ func NewFixedValueResolver
+//@   property C02
+//@   ensures [fields_as_given] result != nil && result.id == id && result.value == value
+//@ func NewNonStringPrimitiveResolver
+//@   property C02
+//@   ensures [nonnil] result != nil
+//@ func NewParamResolver
+//@   property C03 C06
+//@   ensures [fields_as_given] result != nil && result.resolver == resolver
+//@ func NewPatternResolver
+//@   property C03 C06 C07
+//@   ensures [fields_as_given] result != nil && result.tokenizer == t
+//@ func NewServiceResolver
+//@   property C02 C06
+//@   ensures [emits_a_service_dependency] result != nil && result.patternGetService == consts.TplDependencyService
+//@ func NewTaggedResolver
+//@   property C02 C04
+//@   ensures [emits_a_tag_dependency] result != nil && result.patternGetByTag == consts.TplDependencyTag
+//@ func NewValueResolver
+//@   property C02 C14
+//@   ensures [fields_as_given] result != nil && result.aliaser == a
